@@ -16,6 +16,9 @@ func NewBitMatrixParser(bitMatrix *gozxing.BitMatrix) (*BitMatrixParser, error) 
 	if dimension < 21 || (dimension&0x03) != 1 {
 		return nil, gozxing.NewFormatException("dimension = %v", dimension)
 	}
+	if width := bitMatrix.GetWidth(); width != dimension {
+		return nil, gozxing.NewFormatException("not square: width = %v, height = %v", width, dimension)
+	}
 	return &BitMatrixParser{bitMatrix: bitMatrix}, nil
 }
 
